@@ -288,12 +288,36 @@ def m_F37(case, backend, f):
     if backend != "sqlite" or f["kind"] != "rows":
         return False
 
+    def nn(e):
+        """can the expression be non-null when every column it reads is null?"""
+        if not isinstance(e, list) or not e:
+            return False
+        if e[0] in ("lit", "litc"):
+            return e[1] is not None
+        if e[0] in ("col", "c"):
+            return False
+        if e[0] == "cast":
+            return nn(e[1])
+        if e[0] in ("case", "map"):
+            return True
+        if e[0] == "fn":
+            if e[1] in ("is_null", "is_not_null", "count", "count_star"):
+                return True
+            if e[1] in NULL_ABSORBING:
+                return any(nn(a) for a in e[2])
+            return bool(e[2]) and all(nn(a) for a in e[2])
+        return False
+
     def absorbing(steps):
+        # a computed column that READS a column (a pure constant is const-typed and handled by the subquery rule
+        # "left / full join with a table containing a constant column") and is not null on the null padding
         for st in steps:
             if st[0] == "mutate":
-                for e in walk_exprs(st[1]):
-                    if e[0] == "case" or (e[0] == "fn" and e[1] in NULL_ABSORBING) or (e[0] == "lit"):
+                for _, e in st[1]:
+                    if mentions_col(e) and nn(e):
                         return True
+            elif st[0] == "join" and absorbing(st[1]["steps"]):
+                return True     # a computed column that came in through an earlier join of the padded side
         return False
     for p in walk_pipes(case["pipe"]):
         for i, st in enumerate(p["steps"]):
